@@ -126,7 +126,7 @@ static void fa_note_site(int type, size_t size, void *caller, int is_realloc) {
 
 /* decide whether this attempt fails; writes the notice (with backtrace) at once, so that the
  * parent knows the site even if the process dies right afterwards */
-static int fa_should_fail(int type, size_t size, int is_realloc) {
+static int fa_should_fail(int type, size_t size, int is_realloc, void *caller) {
   if (!fa_armed) return 0;
   fa_attempts++;
   int hit = fa_fail_all;
@@ -140,8 +140,17 @@ static int fa_should_fail(int type, size_t size, int is_realloc) {
     int n = backtrace(bt, FA_BT);
     int o = snprintf(line, sizeof(line), "I %ld %s %d %zu", fa_attempts, is_realloc ? "R" : "M",
                      type, size);
-    /* bt[0] = this function, bt[1] = the wrapper, bt[2] = libcoap caller ... */
-    for (int i = 2; i < n && o < (int)sizeof(line) - 24; i++)
+    /* the first address is the return address of the wrapper (= the allocation site in
+     * libcoap); the frames behind it in the backtrace follow (how many frames of the shim and
+     * of a sanitizer run-time come first depends on the compiler) */
+    int start = n;
+    for (int i = 0; i < n; i++)
+      if (bt[i] == caller) {
+        start = i + 1;
+        break;
+      }
+    o += snprintf(line + o, sizeof(line) - (size_t)o, " %p", caller);
+    for (int i = start; i < n && o < (int)sizeof(line) - 24; i++)
       o += snprintf(line + o, sizeof(line) - (size_t)o, " %p", bt[i]);
     line[o++] = '\n';
     if (write(fa_notice_fd, line, (size_t)o) < 0) { /* ignore */ }
@@ -186,7 +195,7 @@ static void *fa_register(void *p, int type, size_t size) {
 
 void *__wrap_coap_malloc_type(coap_memory_tag_t type, size_t size) {
   if (fa_armed) fa_note_site((int)type, size, __builtin_return_address(0), 0);
-  if (fa_should_fail((int)type, size, 0)) {
+  if (fa_should_fail((int)type, size, 0, __builtin_return_address(0))) {
     fa_ev("x", 0, 0);
     return NULL;
   }
@@ -230,7 +239,7 @@ void *__wrap_coap_realloc_type(coap_memory_tag_t type, void *p, size_t size) {
   if (fa_armed) fa_note_site((int)type, size, __builtin_return_address(0), 1);
   fa_blk_t *ob = p ? fa_slot(p, 0) : NULL;
   long oid = p ? (ob ? ob->id : -1) : 0;
-  if (fa_should_fail((int)type, size, 1)) {
+  if (fa_should_fail((int)type, size, 1, __builtin_return_address(0))) {
     fa_ev("y%ld", oid, 0);
     return NULL;
   }
